@@ -502,7 +502,7 @@ def coq_program(name, xj):
                     if 'self' in p:
                         selfk = p['self']
                     elif 'name' in p:
-                        params.append((p['name'], p['ty']))
+                        params.append((p['name'], translate.canon_ty(p['ty'])))
                     else:
                         params.append(('?', p.get('other', '?')))
                 if fi.get('unsafe') or fi.get('async') or fi.get('generics'):
@@ -513,7 +513,7 @@ def coq_program(name, xj):
                     translate.cstr(fi['name']), decls.coq_bool(fi['vis'] == 'pub'), decls.coq_bool(fi['const']),
                     decls.coq_bool(has_doc(fi['attrs'])), translate.cstr(selfk),
                     '; '.join('(%s, %s)' % (translate.cstr(a), translate.cstr(b)) for a, b in params),
-                    translate.cstr(fi['ret'] or ''), body))
+                    translate.cstr(translate.canon_ty(fi['ret'])), body))
     return '(mkProgram %s %d [\n    %s])' % (translate.cstr(name), storage, ';\n    '.join(fns))
 
 
